@@ -180,6 +180,41 @@ def run_entry(ctx, I, fn, args_builder, label, tag=None):
         return False
 
 
+def refine_bulk_item(ctx, I, prog, fn, n, desc, gsv, item, gate, before, fresh, tag):
+    """A panic site left open by the run on a symbolic offered item (one template standing for the offered actions of up to 64
+    squares) is re-examined by finite case split: once per square whose offering condition is satisfiable, on the instance of the
+    state in which the input literals that condition forces are constants, with the loop-free branches of the entry function
+    followed separately to its exit.  Sites still open in some instance stay reported."""
+    for k in fresh:
+        I.panics.pop(k, None)
+        I.asserts_bad.pop(k, None)
+        getattr(I, 'first_seen_in', {}).pop(k, None)
+    bv, tmpl = item[1], item[2]
+    saved = I.late_join
+    I.late_join = set(saved) | {fn}
+    runs = 0
+    try:
+        for sq in range(bv.w):
+            g = B.band(gate, bv.bits[sq])
+            if g is C0:
+                continue
+            asg = {v: (1 if p else 0) for (v, p) in B.must(g)
+                   if isinstance(v, tuple) and len(v) == 2 and isinstance(v[1], int) and v[0] not in ('@', '#')}
+            if g.kind == 's' and len(g.sup) == 1 and g.sup[0][0] not in ('@', '#'):
+                asg[g.sup[0]] = 1 if g.tt == (0, 1) else 0
+            gs_i = inputs.subst_lits(gsv, asg)
+            act_i = inputs.subst_sigma(tmpl, sq)
+
+            def build(I_, st, gs_i=gs_i, act_i=act_i, g=g):
+                st.pc = (g,) if g is not C1 else ()
+                return [inputs.ref_to(I_, st, 'gs', gs_i), inputs.ref_to(I_, st, 'act', act_i)]
+            runs += run_entry(ctx, I, fn, build, '%s(offered item, square %s) / %s' % (n, G.name(sq), desc), tag=tag)
+    finally:
+        I.late_join = saved
+    ctx.count('offered_item_case_splits', runs)
+    return runs
+
+
 def find_impl(prog, trait, self_ty, method):
     for k, f in prog.fns.items():
         if f.get('trait_impl') == trait and f.get('self_ty') == self_ty and k.endswith('::' + method):
@@ -281,7 +316,11 @@ def check_c19(ctx, prog, tier):
                 acts.append(pass_a)
         gold_mode = ' gold' in desc
         for a in acts:
+            # fixed actions that need not be offered: demanded of take_action's own panic sites only where they hold for any
+            # action; the preview is demanded for offered actions only (below), as the property states
             for n in ('GameState::take_action', 'GameState::trapped_animal_for_action'):
+                if n.endswith('trapped_animal_for_action') and not setup and a is not pass_a:
+                    continue
                 nrun += run_entry(ctx, I, ent[n],
                                   lambda I_, st, a=a, gsv=gsv: [inputs.ref_to(I_, st, 'gs', gsv), inputs.ref_to(I_, st, 'act', a)],
                                   '%s / %s' % (n, desc), tag=None if setup else (gold_mode, step, action_kind(prog, a)))
@@ -305,8 +344,13 @@ def check_c19(ctx, prog, tier):
                     def build(I_, st, act=act, gsv=gsv, gate=gate):
                         st.pc = (gate,) if gate is not C1 else ()
                         return [inputs.ref_to(I_, st, 'gs', gsv), inputs.ref_to(I_, st, 'act', act)]
+                    before = (dict(I.panics), dict(I.asserts_bad))
                     nrun += run_entry(ctx, I, ent[n], build, '%s(offered item) / %s' % (n, desc),
                                       tag=(gold_mode, step, action_kind(prog, act)))
+                    fresh = (set(I.panics) | set(I.asserts_bad)) - set(before[0]) - set(before[1])
+                    if fresh and cur[0] == 'bulk':
+                        nrun += refine_bulk_item(ctx, I, prog, ent[n], n, desc, gsv, cur, gate, before, fresh,
+                                                 (gold_mode, step, action_kind(prog, act)))
         for i in range(0, (step if not setup else 0) + 1):
             nrun += run_entry(ctx, I, ent['GameState::piece_board_for_step'],
                               lambda I_, st, i=i, gsv=gsv: [inputs.ref_to(I_, st, 'gs', gsv), BV.const(i, 64)],
